@@ -383,23 +383,14 @@ theorem C06_sentence_repaired :
     filterCompatible A b!"Foo" Gen.allStyles = [.pascal, .train, .title, .sentence] ∧
     rewriteLine (cfg0 {} b!"foo_bar" b!"baz_qux") b!"\"Foo bar\"\n" = some b!"\"Baz qux\"\n" := by decide +kernel
 
--- ── finding `exclude_all_reenables_defaults` (witness + refutation of the full statement; both go when it is repaired) ──
+-- ── `exclude_all_reenables_defaults`: repaired ──
 
-/-- finding `exclude_all_reenables_defaults`: excluding every default style yields `None`, the scanner's own default list
-    is used and the excluded snake_case occurrence is rewritten -/
-theorem C06_witness_exclude_all :
-    buildStylesList { excl := Gen.defaultStyles } = none ∧
-    rewriteLine (cfg0 { excl := Gen.defaultStyles } b!"foo_bar" b!"baz_qux") b!"foo_bar\n" = some b!"baz_qux\n" := by
-  decide +kernel
-
-/-- the full statement is false; refuted on the `exclude_all` witness (an excluded snake_case occurrence is rewritten).
-    TIED TO THAT FINDING. -/
-theorem same_style_full_false_exclude_all : ¬ same_style_full := by
-  intro h
-  have := h { excl := Gen.defaultStyles } [b!"foo", b!"bar"] [b!"baz", b!"qux"] .snake .snake .snake [] [] (by decide)
-    (by decide) (by decide) (by decide) (by decide +kernel) (by decide +kernel) (by decide +kernel) (by decide +kernel)
-    (by decide) (by decide) (by decide) (by decide) (by decide)
-  revert this
+/-- repaired (was finding `exclude_all_reenables_defaults`): excluding every default style reaches the scanner as the empty
+    list, no variant is generated and the excluded snake_case occurrence stays -/
+theorem C06_exclude_all_repaired :
+    buildStylesList { excl := Gen.defaultStyles } = some [] ∧
+    (cfg0 { excl := Gen.defaultStyles } b!"foo_bar" b!"baz_qux").vmap = [] ∧
+    rewriteLine (cfg0 { excl := Gen.defaultStyles } b!"foo_bar" b!"baz_qux") b!"foo_bar\n" = some b!"foo_bar\n" := by
   decide +kernel
 
 -- ── (stable) ─────────────────────────────────────────────────────────────────────────────────────────────────
@@ -410,21 +401,13 @@ theorem C06_sentence_typed :
 
 -- ── finding `single_style_separatorless_search_unmatched` (witness + refutation; both go when it is repaired) ──────
 
-/-- finding `single_style_separatorless_search_unmatched`: search typed `fooBar`, `--only-styles camel` -/
-theorem C06_witness_single_style :
-    skipExact A b!"fooBar" (stylesSlice { only := [.camel] }) = true ∧
-    rewriteLine (cfg0 { only := [.camel] } b!"fooBar" b!"bazQux") b!"fooBar\n" = some b!"fooBar\n" ∧
-    rewriteLine (cfg0 { only := [.camel, .snake] } b!"fooBar" b!"bazQux") b!"fooBar\n" = some b!"bazQux\n" := by
-  decide +kernel
-
-/-- the full statement is false; refuted on the `single_style` witness (`fooBar`, `--only-styles camel`: nothing is renamed).
-    TIED TO THAT FINDING. -/
-theorem same_style_full_false_single_style : ¬ same_style_full := by
-  intro h
-  have := h { only := [.camel] } [b!"foo", b!"bar"] [b!"baz", b!"qux"] .camel .camel .camel [] [] (by decide)
-    (by decide) (by decide) (by decide) (by decide +kernel) (by decide +kernel) (by decide +kernel) (by decide +kernel)
-    (by decide) (by decide) (by decide) (by decide) (by decide)
-  revert this
+/-- repaired (was finding `single_style_separatorless_search_unmatched`): a term typed `fooBar` tokenizes to two words, so
+    the exact pass runs with a single enabled style too; a true one-word term still takes the compound-only path -/
+theorem C06_single_style_repaired :
+    skipExact A b!"fooBar" (stylesSlice { only := [.camel] }) = false ∧
+    skipExact A b!"foo" (stylesSlice { only := [.camel] }) = true ∧
+    rewriteLine (cfg0 { only := [.camel] } b!"fooBar" b!"bazQux") b!"fooBar\n" = some b!"bazQux\n" ∧
+    rewriteLine (cfg0 { only := [.snake] } b!"fooBar" b!"bazQux") b!"foo_bar\n" = some b!"baz_qux\n" := by
   decide +kernel
 
 end C06
